@@ -254,6 +254,25 @@ def gen_history(rng, prog, length, deep=False):
     return ops, files
 
 
+def gen_tower(rng, prog, height):
+    """A history that nests [height] buffers (beyond the first and second growth of the buffer stack: 1, 9, 17 slots),
+    scanning a little at every level on the way up and on the way down."""
+    import rulesets
+    files, ops = [], []
+    for i in range(height):
+        files.append(rulesets.gen_inputs(prog, rng.fork("t%d" % i), count=1, maxlen=rng.pick([8, 20]))[0])
+        ops.append(('C', i, i, 16384))
+    for i in range(height):
+        ops.append(('P', i))
+        ops.append(('L', rng.pick([1, 1, 2])))
+        if i in (8, 9, 16, 17) and rng.chance(50) and i + 1 < height:
+            pass
+    for i in range(height - 1):
+        ops.append(('O',))
+        ops.append(('L', rng.pick([1, 2, 50])))
+    return ops, files
+
+
 def ops_text(ops, workdir):
     lines = []
     for o in ops:
